@@ -343,6 +343,25 @@ def uninit_cases(rng, n):
         cab = cabfmt.build_cab([(3 | (wb << 8), [(stream[:cut], 32768), (stream[cut:], total - 32768)])], [(b"x.bin", total, 0, 0, 0x5A21, 0x6C43, 0x20)])
         sc = scenario.Scn().file("in0.cab", cab); cab_ops(sc, 1, 4); out.append(Case("uninit:lzx-frame2-match", "cab", sc))
     for i in range(n):
+        # a cabinet cut off inside the payload of a data block, read in salvage mode: whatever the block reader hands on beyond the
+        # bytes it really read comes from the freshly allocated input buffer
+        meth = [("none",), ("mszip",), ("lzx", 16), ("qtm", 15)][i % 4]
+        c = gen.cab_single(rng, nfolders=1, methods=[meth]); cab = c.files["in0.cab"]
+        flags = struct.unpack_from("<H", cab, 30)[0]; p_ = 36; dres = 0; fres = 0
+        if flags & 4:
+            hres, fres, dres = struct.unpack_from("<HBB", cab, p_); p_ += 4 + hres
+        for bit in (1, 2):
+            if flags & bit:
+                for _ in range(2): p_ = cab.index(b"\0", p_) + 1
+        q = struct.unpack_from("<I", cab, p_)[0]; nblk = struct.unpack_from("<H", cab, p_ + 4)[0]
+        k = rng.randrange(nblk) if nblk else 0
+        for _ in range(k): q += 8 + dres + struct.unpack_from("<H", cab, q + 4)[0]
+        cb = struct.unpack_from("<H", cab, q + 4)[0]
+        if cb < 2: continue
+        cut = q + 8 + dres + rng.randrange(1, cb)
+        sc = scenario.Scn().file("in0.cab", cab[:cut]).op("cab_new").op("cab_param", 3, 1).op("cab_open", "c0", "in0.cab").op("cab_extract_all", "c0", "out", 6).op("cab_close", "c0")
+        out.append(Case("uninit:cab-salvage-short-block", "cab", sc))
+    for i in range(n):
         # KWAJ LZH: the stream ends inside one code-length list (the other lists are of the fixed type, which reads nothing): the table
         # for that list is built from whatever the length array held
         k = rng.randrange(5); b = BitsMSB()
